@@ -211,6 +211,31 @@ Definition pass_to_handler (aw : list N) (h : header) (e : env_step) (bs : list 
         (PthErr (mkDispatch h (Some RTruncated) None false (HeaderSz + n)), aw2)
   end.
 
+(* What the caller awaiting the reply is handed: Message.data (messages.go 348-369) run by
+   SendMessage / SendFor / UnmarshalTo on the Message that passToHandler sent on the reply
+   channel.  None = an error is returned to the caller; Some bytes = success with these bytes.
+   [size_first]: the `payloadLen > MaxBufferedPayloadSz` check comes before the `payload == nil`
+   and byteProvider shortcuts (the tree since the fix of F3); false = the shortcuts come first
+   and the limit is only applied before data() allocates a buffer itself — then the header-only
+   Message of an over-limit reply yields (nil, nil): success with no bytes. *)
+Definition caller_data (size_first : bool) (h : header) (r : reply_delivery) : option (list byte) :=
+  match r with
+  | RBuffered pl => if size_first && (maxbuf <? h_len h) then None else Some pl   (* b.Bytes() *)
+  | RHeaderOnly => if size_first && (maxbuf <? h_len h) then None else Some []    (* payload == nil *)
+  | RTruncated => None                                   (* nothing is sent: the caller's send fails *)
+  end.
+
+(* SendMessage's result for the caller of a dispatched frame: None = nobody awaited it;
+   Some None = error; Some (Some (type, data)) = success *)
+Definition caller_handed (size_first : bool) (d : dispatch) : option (option (N * list byte)) :=
+  match d_reply d with
+  | None => None
+  | Some r => Some (match caller_data size_first (d_hdr d) r with
+                    | Some data => Some (h_typ (d_hdr d), data)
+                    | None => None
+                    end)
+  end.
+
 (* how handleIncoming ends (the client is not closed by the user in this model) *)
 Inductive ending :=
 | EndEOF             (* clean EOF at a frame boundary: "failed to get next message" *)
